@@ -98,6 +98,8 @@ pub struct Echo {
     random_at: Option<[u8; 16]>,
     execfn_at: Option<Vec<u8>>,
     clock: [i64; 18],
+    /// built with the minimal feature set (no aux getters to judge)
+    min: bool,
     /// load base and the words found at the requested link-time addresses
     peek: Option<(u64, Vec<u64>)>,
 }
@@ -174,13 +176,19 @@ pub fn parse(out: &[u8]) -> Result<Echo, String> {
         let v = look(&take(&mut it, b'v')?).ok_or_else(|| bad("v"))?;
         e.lookups.push((k, u, v));
     }
-    e.uid = u64le(&take(&mut it, b'U')?).ok_or_else(|| bad("U"))?;
-    e.gid = u64le(&take(&mut it, b'G')?).ok_or_else(|| bad("G"))?;
-    e.random = match opt_bytes(&take(&mut it, b'R')?).ok_or_else(|| bad("R"))? {
-        None => None,
-        Some(b) => Some(b.as_slice().try_into().map_err(|_| bad("R length"))?),
-    };
-    e.execfn = opt_bytes(&take(&mut it, b'E')?).ok_or_else(|| bad("E"))?;
+    if it.peek().map(|r| r.0) == Some(b'M') {
+        // the minimal-feature build has no aux getters
+        it.next();
+        e.min = true;
+    } else {
+        e.uid = u64le(&take(&mut it, b'U')?).ok_or_else(|| bad("U"))?;
+        e.gid = u64le(&take(&mut it, b'G')?).ok_or_else(|| bad("G"))?;
+        e.random = match opt_bytes(&take(&mut it, b'R')?).ok_or_else(|| bad("R"))? {
+            None => None,
+            Some(b) => Some(b.as_slice().try_into().map_err(|_| bad("R length"))?),
+        };
+        e.execfn = opt_bytes(&take(&mut it, b'E')?).ok_or_else(|| bad("E"))?;
+    }
     e.auxv = take(&mut it, b'X')?;
     let r = take(&mut it, b'r')?;
     e.random_at = if r.is_empty() { None } else { Some(r.as_slice().try_into().map_err(|_| bad("r length"))?) };
@@ -393,7 +401,9 @@ fn judge(case_argv: &[Vec<u8>], envp: &[Vec<u8>], keys: &[Vec<u8>], path: &str, 
         // aux values against the kernel's own record (/proc/self/auxv as read by the probe)
         let at_uid = aux_value(&e.auxv, AT_UID);
         let at_gid = aux_value(&e.auxv, AT_GID);
-        if e.auxv.is_empty() || e.auxv.len() % 16 != 0 {
+        if e.min {
+            // nothing the start-up code hands out besides arguments and environment
+        } else if e.auxv.is_empty() || e.auxv.len() % 16 != 0 {
             f.push(Failure::new(format!("probe-env|unreadable auxv|{mode}"), format!("[{mode}] /proc/self/auxv gave {} bytes", e.auxv.len())));
         } else {
             if at_uid.map(|v| v as u32 as u64) != Some(e.uid) {
@@ -705,7 +715,7 @@ pub fn run(ctx: &Ctx) {
     for b in 0..NB {
         let p = probe_path(&root, b);
         if !std::path::Path::new(&p).exists() {
-            if b >= 6 {
+            if b == 6 {
                 // optional build (the linker did not produce it): the other builds decide
                 eprintln!("[C07] optional probe build {} is not available", MODES[b]);
                 have[b] = false;
